@@ -19,6 +19,7 @@ type PropCfg struct {
 	Packages    []string `json:"packages"`
 	Sweep       []string `json:"sweep"` // packages whose functions get zero-annotation safety obligations
 	SweepOnly   []string `json:"sweep_only"`
+	SweepExcl   string   `json:"sweep_exclude"` // regexp: functions without contract that are not swept (reported as not covered)
 	NotCovered  []string `json:"not_covered"`
 	Assumptions []string `json:"assumptions"`
 	Bounded     []string `json:"bounded"`
@@ -171,6 +172,11 @@ func main() {
 	}
 	sort.Strings(keys)
 	done := map[*ssa.Function]bool{}
+	var sweepExcl *regexp.Regexp
+	if cfg.SweepExcl != "" {
+		sweepExcl = regexp.MustCompile(cfg.SweepExcl)
+	}
+	var excluded []string
 	for _, p := range P.pkgs {
 		sp := P.prog.Package(p.Types)
 		if sp == nil {
@@ -188,6 +194,10 @@ func main() {
 			}
 			if ct == nil && sweepSet[rel] {
 				want = true
+				if sweepExcl != nil && sweepExcl.MatchString(fn.String()) {
+					want = false
+					excluded = append(excluded, fn.String())
+				}
 			}
 			if ct != nil && sweepSet[rel] {
 				want = true
@@ -383,6 +393,7 @@ func main() {
 		"solver_ms_total":          totalMs,
 		"known_findings_hit":       knownHits,
 		"not_covered":              cfg.NotCovered,
+		"functions_excluded_from_sweep": excluded,
 		"bounded":                  cfg.Bounded,
 		"explanation":              cfg.Explanation,
 		"obligation_list":          oblList,
